@@ -609,4 +609,135 @@ theorem free_inv (cfg : Cfg) (h : Heap) (p : Nat) (r : Res) (hi : HInv cfg h) (h
         · have := hi.notTop g (by rw [hflp]; exact hg); omega
       · have := hMadeWf c (hmade c hc); exact ⟨this.1, this.2.1, this.2.2.1⟩
 
+
+theorem growScan_inl {fp2 incr : Nat} {l : List Chunk} {s : Nat} {c : Chunk}
+    (h : growScan fp2 incr l s = .inl c) : c ∈ l ∧ c.1 = fp2 ∧ c.2 + 8 ≥ incr := by
+  induction l generalizing s with
+  | nil => simp [growScan] at h
+  | cons d l ih =>
+    simp only [growScan] at h
+    split at h
+    · rename_i hc; cases h; exact ⟨by simp, hc.1, hc.2⟩
+    · have := ih h; exact ⟨List.mem_cons_of_mem _ this.1, this.2⟩
+
+theorem hasN_split2 (x a s k : Nat) (hk : k + 8 ≤ s) :
+    hasN x (a, s) = hasN x (a, k) + hasN x (a + 8 + k, s - k - 8) := by
+  unfold hasN; simp only; split <;> split <;> split <;> omega
+
+theorem realloc_inv (cfg : Cfg) (ok : CfgOK cfg) (h : Heap) (ptr : Option Nat) (n : Nat) (r : Res)
+    (hi : HInv cfg h) (hr : realloc cfg h ptr n = some r) : HInv cfg r.h := by
+  obtain ⟨hn, hn8, hnm⟩ := reqLen_props cfg ok n
+  unfold realloc at hr
+  generalize minLen (roundLen cfg.W n) = len at *
+  simp only at hr
+  split at hr
+  · cases hr; exact malloc_inv cfg ok h len hi
+  rename_i p
+  split at hr
+  · cases hr
+  rename_i hp8
+  split at hr
+  · cases hr
+  rename_i sz hl
+  have hN := lookup_mem hl
+  obtain ⟨hN8, hNm, hNa⟩ := hi.wfL _ hN
+  simp only at hN8 hNm hNa
+  have hNfin := hi.fin_le_brk (Or.inr hN)
+  simp only at hNfin
+  have hwfset : ∀ new : Chunk, (8 ≤ new.2 ∧ new.2 % 8 = 0 ∧ new.1 % 8 = 0) →
+      ∀ c ∈ setChunk (p - 8) new h.live, 8 ≤ c.2 ∧ c.2 % 8 = 0 ∧ c.1 % 8 = 0 := by
+    intro new hnew c hc
+    rcases mem_setChunk hc with hc | rfl
+    · exact hi.wfL c hc
+    · exact hnew
+  split at hr
+  · -- not growing
+    rename_i hle
+    split at hr
+    · cases hr; exact hi
+    · rename_i hsplit
+      have h1 : HInv cfg { h with live := (p + len, sz - len - 8) :: setChunk (p - 8) (p - 8, len) h.live } := by
+        refine ⟨fun x => ?_, hi.sorted, hi.notTop, hi.wfF, fun c hc => ?_, hi.brk8, hi.lim⟩
+        · have := hi.tile x
+          have := cnt_setChunk (x := x) (new := (p - 8, len)) hl
+          have := hasN_split2 x (p - 8) sz len (by omega)
+          have hpe : p - 8 + 8 + len = p + len := by omega
+          rw [hpe] at this
+          simp only [cnt_cons]; omega
+        · rcases List.mem_cons.1 hc with rfl | hc
+          · simp only; omega
+          · exact hwfset _ ⟨hn8, hnm, hNa⟩ c hc
+      split at hr
+      · cases hr
+      · rename_i r1 hf
+        cases hr
+        exact free_inv cfg _ _ r1 h1 hf
+  · -- growing
+    rename_i hgt
+    split at hr
+    · -- the chunk right above is free and large enough
+      rename_i fp3 hg
+      obtain ⟨hm3, ha3, hs3⟩ := growScan_inl hg
+      have hl3 := lookup_of_mem_sorted hi.sorted hm3
+      have hw3 := hi.wfF _ hm3
+      have hfin3 := hi.fin_le_brk (Or.inl hm3)
+      split at hr
+      · rename_i hbig
+        cases hr
+        refine ⟨fun x => ?_, sorted_setChunk hi.sorted hl3 (by simp only; omega) (by simp only; omega),
+          fun f hf => ?_, fun c hc => ?_, hwfset _ ⟨hn8, hnm, hNa⟩, hi.brk8, hi.lim⟩
+        · have := hi.tile x
+          have := cnt_setChunk (x := x) (new := (p - 8, len)) hl
+          have := cnt_setChunk (x := x) (new := (p + len, fp3.2 - (len - sz))) hl3
+          have e1 : hasN x (p - 8, sz) + hasN x (fp3.1, fp3.2) = hasN x (p - 8, len) + hasN x (p + len, fp3.2 - (len - sz)) := by
+            unfold hasN; simp only; split <;> split <;> split <;> split <;> omega
+          simp only at *; omega
+        · rcases mem_setChunk hf with hf | rfl
+          · exact hi.notTop f hf
+          · have := hi.notTop fp3 hm3; simp only; omega
+        · rcases mem_setChunk hc with hc | rfl
+          · exact hi.wfF c hc
+          · simp only; omega
+      · rename_i hsmall
+        cases hr
+        refine ⟨fun x => ?_, hi.sorted.sublist (remove_sublist _ _), fun f hf => hi.notTop f (mem_remove hf),
+          fun c hc => hi.wfF c (mem_remove hc), hwfset _ ⟨by simp only; omega, by simp only; omega, hNa⟩, hi.brk8, hi.lim⟩
+        have := hi.tile x
+        have := cnt_setChunk (x := x) (new := (p - 8, sz + (fp3.2 + 8))) hl
+        have := cnt_remove (x := x) hl3
+        have e1 := hasN_merge x (p - 8, sz) fp3 (by simp only; omega)
+        simp only at *
+        have e2 : hasN x (fp3.1, fp3.2) = hasN x fp3 := rfl
+        omega
+    · rename_i s hg
+      split at hr
+      · -- topmost chunk: extend in place
+        rename_i htop
+        split at hr
+        · cases hr; exact hi
+        · rename_i hlim
+          cases hr
+          refine ⟨fun x => ?_, hi.sorted, fun f hf => ?_, hi.wfF, hwfset _ ⟨hn8, hnm, hNa⟩, by simp only; omega, fun hl0 => ?_⟩
+          · have h1 := hi.tile x
+            have := cnt_setChunk (x := x) (new := (p - 8, len)) hl
+            have e1 : hasN x (p - 8, len) = hasN x (p - 8, sz) + (if h.brk ≤ x ∧ x < p + len then 1 else 0) := by
+              unfold hasN; simp only; split <;> split <;> split <;> omega
+            simp only at *
+            split at e1 <;> split at h1 <;> split <;> omega
+          · have := hi.fin_le_brk (Or.inl hf); simp only; omega
+          · simp only
+            by_cases hq : p + len > cfg.lim
+            · exact absurd ⟨hl0, hq⟩ hlim
+            · omega
+      · -- move
+        rename_i hnot
+        have him := malloc_inv cfg ok h len hi
+        split at hr
+        · cases hr; exact him
+        · split at hr
+          · cases hr
+          · rename_i r2 hf2
+            cases hr
+            exact free_inv cfg _ _ r2 him hf2
+
 end Igris.C10
